@@ -59,3 +59,37 @@ func H_C13_kernels(bits int64) {
 	vCover("C13.kernels.done")
 	vAssert("C13.cross-sign-at-magnitude", vAnd((d < 0) == neg, (d == 0) == zero))
 }
+
+// H_C13_mul128: the 128-bit multiply behind isCollinear is exact for all
+// operands up to 2^bits (coordinate differences at MaxCoord reach 2^62):
+// Hi:Lo equals the sum of the four 32-bit limb products.
+func H_C13_mul128(bits int64) {
+	B := int64(1)<<uint(bits) - 1
+	a, b := uint64(vInt("a", 0, B)), uint64(vInt("b", 0, B))
+	r := multiplyUInt64(a, b)
+	a0, a1 := a&0xFFFFFFFF, a>>32
+	b0, b1 := b&0xFFFFFFFF, b>>32
+	vCover("C13.mul128.done")
+	vAssert("C13.mul128.exact", vWideEq(r.Hi64, r.Lo64, a1*b1, a1*b0+a0*b1, a0*b0))
+}
+
+// H_C13_mul128_table: the same identity on a fixed table of limb-boundary
+// operands (all pairs), evaluated concretely by the interpreter. The symbolic
+// job proves the identity for the unchanged code by normalisation; for a
+// broken multiply the solver rarely finds the carry witness in time, so this
+// table keeps the classic carry cases in the check.
+func H_C13_mul128_table() {
+	t := []uint64{0, 1, 2, 0xFFFFFFFF, 0x100000000, 0x100000001, 0x1FFFFFFFF, 0xFFFFFFFF00000000,
+		0xFFFFFFFFFFFFFFFF, 0x8000000000000000, 0x7FFFFFFFFFFFFFFF, 0x3FFFFFFFFFFFFFFF, 0xC0000000, 0x180000000,
+		3 << 30, 1 << 31, 5 << 30, 0xDEADBEEFCAFEF00D, 0x123456789ABCDEF}
+	for _, a := range t {
+		for _, b := range t {
+			r := multiplyUInt64(a, b)
+			a0, a1 := a&0xFFFFFFFF, a>>32
+			b0, b1 := b&0xFFFFFFFF, b>>32
+			_, _, _, _ = a0, a1, b0, b1
+			vAssert("C13.mul128.table", vMul128Check(a, b, r.Hi64, r.Lo64))
+		}
+	}
+	vCover("C13.mul128.table.done")
+}
